@@ -446,6 +446,7 @@ func (ps *pathState) choice(n int, tag string) int {
 	if n <= 1 {
 		return 0
 	}
+	ps.nBranch++
 	if ps.pos < len(ps.prefix) {
 		d := ps.prefix[ps.pos]
 		ps.pos++
